@@ -7,6 +7,7 @@
 -/
 import Ctrmml.Proofs.MdDriver
 import Ctrmml.Proofs.VgmInv
+import Ctrmml.Proofs.VgmPcm
 import Ctrmml.Proofs.Wave
 namespace Ctrmml.MdDriver
 open Ctrmml Player PlayerCh Tables
@@ -14,16 +15,30 @@ open Ctrmml Player PlayerCh Tables
 /-- length of the data block `play_song` writes: the used part of the wave rom -/
 def used (d : Data) : Nat := d.bank.rom.length - d.bank.freeBytes
 
+/-- the data block `play_song` writes -/
+def pcmBlock (d : Data) : Bytes := d.bank.rom.take (used d)
+
+theorem pcmBlock_length (d : Data) : (pcmBlock d).length = used d := by
+  unfold pcmBlock used
+  rw [List.length_take]
+  omega
+
 /-- FM channels live on port 0 or 1 -/
 def KindOK : Kind → Prop
   | .fm bank _ => bank ≤ 1
   | _ => True
 
+/-- `s` is the sample header of a PCM instrument of the song: `wave_map` sends a PCM instrument
+id to it -/
+def IsPcmSample (d : Data) (s : Wave.Sample) : Prop :=
+  ∃ ins, (d.get ins).type = mdsdrv_INS_PCM ∧ d.bank.samples[(d.waveMap.lookup ins).getD 0]? = some s
+
 /-- a channel write is a PSG write or a YM2612 write on port 0/1, and a stream start that rides
-on it addresses bytes inside the data block -/
+on it plays the window of a PCM instrument's sample header at that sample's rate -/
 def WrOK (d : Data) (w : Wr) : Prop :=
   ((w.cmd = 0x50 ∧ w.port = 0 ∧ w.reg = 0) ∨ (w.cmd = 0x52 ∧ w.port ≤ 1)) ∧
-  (∀ p l r, w.dac = .start p l r → p % 4294967296 + l % 4294967296 ≤ used d)
+  (∀ p l r, w.dac = .start p l r →
+    ∃ s, IsPcmSample d s ∧ p = Wave.u32 (s.position + s.start) ∧ l = s.size ∧ r = s.rate)
 
 def AllOK (d : Data) (o : List Wr) : Prop := ∀ w ∈ o, WrOK d w
 
@@ -135,10 +150,11 @@ structure BankOK (d : Data) : Prop where
   windows : ∀ s ∈ d.bank.samples, s.position + s.start + s.size ≤ used d
   small : d.bank.rom.length < 2147483648
 
-theorem keyOnPcm_ok (d : Data) (g : G) (c : Ch) (hb : BankOK d) : AllOK d (keyOnPcm d g c).2 := by
+theorem keyOnPcm_ok (d : Data) (g : G) (c : Ch) : AllOK d (keyOnPcm d g c).2 := by
   unfold keyOnPcm
   split
-  · split
+  · rename_i hty
+    split
     · exact AllOK.nil d
     · rename_i s hs
       intro w hw
@@ -147,12 +163,7 @@ theorem keyOnPcm_ok (d : Data) (g : G) (c : Ch) (hb : BankOK d) : AllOK d (keyOn
       intro p l r h
       simp only [Dac.start.injEq] at h
       obtain ⟨rfl, rfl, rfl⟩ := h
-      have := hb.windows s (List.mem_of_getElem? hs)
-      have h1 : Wave.u32 (s.position + s.start) % 4294967296 ≤ s.position + s.start := by
-        unfold Wave.u32
-        exact Nat.le_trans (Nat.mod_le _ _) (Nat.mod_le _ _)
-      have h2 : s.size % 4294967296 ≤ s.size := Nat.mod_le _ _
-      omega
+      exact ⟨s, ⟨_, hty, hs⟩, rfl, rfl, rfl⟩
   · exact AllOK.nil d
 
 theorem keyOff_ok (d : Data) (c : Ch) (hk : KindOK c.kind) : (keyOff c).1.kind = c.kind ∧ AllOK d (keyOff c).2 := by
@@ -396,13 +407,13 @@ theorem chKeyOn_ok (d : Data) (c : Ch) (hk : KindOK c.kind) :
   · exact vKeyOn_ok d c hk
   · exact AllOK.nil d
 
-theorem chKeyOnPcm_ok (d : Data) (g : G) (c : Ch) (hb : BankOK d) : AllOK d (chKeyOnPcm d g c).2 := by
+theorem chKeyOnPcm_ok (d : Data) (g : G) (c : Ch) : AllOK d (chKeyOnPcm d g c).2 := by
   unfold chKeyOnPcm
   split
-  · exact keyOnPcm_ok d g c hb
+  · exact keyOnPcm_ok d g c
   · exact AllOK.nil d
 
-theorem chAfter_ok (d : Data) (g : G) (c : Ch) (hk : KindOK c.kind) (hb : BankOK d) :
+theorem chAfter_ok (d : Data) (g : G) (c : Ch) (hk : KindOK c.kind) :
     (chAfter d g c).2.1.kind = c.kind ∧ AllOK d (chAfter d g c).2.2 := by
   unfold chAfter
   split
@@ -411,20 +422,20 @@ theorem chAfter_ok (d : Data) (g : G) (c : Ch) (hk : KindOK c.kind) (hb : BankOK
     obtain ⟨k2, o2⟩ := chPitch_ok d (chEnv g c).2.1 (by rw [k1]; exact hk)
     obtain ⟨k3, o3⟩ := chKeyOn_ok d (chPitch (chEnv g c).2.1).1 (by rw [k2, k1]; exact hk)
     exact ⟨by dsimp only; rw [k3, k2, k1],
-      AllOK.append (AllOK.append (AllOK.append o1 o2) (chKeyOnPcm_ok d _ _ hb)) o3⟩
+      AllOK.append (AllOK.append (AllOK.append o1 o2) (chKeyOnPcm_ok d _ _)) o3⟩
 
-theorem chUpdate_ok (d : Data) (song : Song) (n : Nat) (g : G) (c : Ch) (hk : KindOK c.kind) (hb : BankOK d) :
+theorem chUpdate_ok (d : Data) (song : Song) (n : Nat) (g : G) (c : Ch) (hk : KindOK c.kind) :
     (chUpdate d song n g c).2.1.kind = c.kind ∧ AllOK d (chUpdate d song n g c).2.2 := by
   unfold chUpdate
   obtain ⟨k1, o1⟩ := chTicks_ok d song n g c hk
-  obtain ⟨k2, o2⟩ := chAfter_ok d (chTicks d song n g c).1 (chTicks d song n g c).2.1 (by rw [k1]; exact hk) hb
+  obtain ⟨k2, o2⟩ := chAfter_ok d (chTicks d song n g c).1 (chTicks d song n g c).2.1 (by rw [k1]; exact hk)
   exact ⟨by dsimp only; rw [k2, k1], AllOK.append o1 o2⟩
 
 /-! ### the driver -/
 
 def ChansOK (cs : List Ch) : Prop := ∀ c ∈ cs, KindOK c.kind
 
-theorem updateAll_ok (d : Data) (song : Song) (n : Nat) (hb : BankOK d) : ∀ (g : G) (cs : List Ch), ChansOK cs →
+theorem updateAll_ok (d : Data) (song : Song) (n : Nat) : ∀ (g : G) (cs : List Ch), ChansOK cs →
     ChansOK (updateAll d song n g cs).2.1 ∧ AllOK d (updateAll d song n g cs).2.2
   | g, [], _ => ⟨(by intro c hc; cases hc), AllOK.nil d⟩
   | g, c :: cs, h => by
@@ -435,14 +446,14 @@ theorem updateAll_ok (d : Data) (song : Song) (n : Nat) (hb : BankOK d) : ∀ (g
         r.2.1.kind = c.kind ∧ AllOK d r.2.2 := by
       intro r hr
       split at hr
-      · rw [hr]; exact chUpdate_ok d song n g c hk hb
+      · rw [hr]; exact chUpdate_ok d song n g c hk
       · rw [hr]; exact ⟨rfl, AllOK.nil d⟩
     cases hr : (if c.enabled then chUpdate d song n g c else (g, c, [])) with
     | mk g1 r1 =>
       obtain ⟨c1, w1⟩ := r1
       obtain ⟨k1, o1⟩ := h1 _ hr.symm
       simp only at k1 o1 ⊢
-      obtain ⟨k2, o2⟩ := updateAll_ok d song n hb g1 cs hcs
+      obtain ⟨k2, o2⟩ := updateAll_ok d song n g1 cs hcs
       cases h2 : updateAll d song n g1 cs with
       | mk g2 r2 =>
         obtain ⟨cs2, w2⟩ := r2
@@ -454,17 +465,17 @@ theorem updateAll_ok (d : Data) (song : Song) (n : Nat) (hb : BankOK d) : ∀ (g
         · rw [k1]; exact hk
         · exact k2 x hx
 
-theorem seqUpdate_ok (d : Data) (song : Song) (s : Drv) (hc : ChansOK s.chans) (hb : BankOK d) :
+theorem seqUpdate_ok (d : Data) (song : Song) (s : Drv) (hc : ChansOK s.chans) :
     ChansOK (seqUpdate d song s).1.chans ∧ AllOK d (seqUpdate d song s).2 := by
   unfold seqUpdate
   simp only
-  exact updateAll_ok d song _ hb s.g s.chans hc
+  exact updateAll_ok d song _ s.g s.chans hc
 
-theorem stepSeq_ok (d : Data) (song : Song) (s : Drv) (hc : ChansOK s.chans) (hb : BankOK d) :
+theorem stepSeq_ok (d : Data) (song : Song) (s : Drv) (hc : ChansOK s.chans) :
     ChansOK (stepSeq d song s).1.chans ∧ AllOK d (stepSeq d song s).2 := by
   unfold stepSeq
   split
-  · exact seqUpdate_ok d song _ hc hb
+  · exact seqUpdate_ok d song _ hc
   · exact ⟨hc, AllOK.nil d⟩
 
 theorem stepPcm_chans (s : Drv) : (stepPcm s).chans = s.chans := by
@@ -484,10 +495,10 @@ theorem stepLoop_ok (s : Drv) (hc : ChansOK s.chans) :
   · exact ⟨hc, Or.inl rfl⟩
 
 /-- operations the export loop may perform: PSG / YM2612 (port 0, 1) writes, delays, loop
-points, stream stops, and stream starts inside the data block -/
+points, stream stops, and stream starts over the window of a PCM instrument's sample -/
 def OpOK (d : Data) : Vgm.Op → Prop
   | .write c p r _ => (c = 0x50 ∧ p = 0 ∧ r = 0) ∨ (c = 0x52 ∧ p ≤ 1)
-  | .dacStart _ st len _ => st % 4294967296 + len % 4294967296 ≤ used d
+  | .dacStart _ st len rate => ∃ s, IsPcmSample d s ∧ st = Wave.u32 (s.position + s.start) ∧ len = s.size ∧ rate = s.rate
   | .dacStop _ => True
   | .setLoop => True
   | .delay _ => True
@@ -508,9 +519,9 @@ theorem flatMap_toOps_ok (d : Data) (o : List Wr) (h : AllOK d o) : ∀ x ∈ o.
   obtain ⟨w, hw, hx⟩ := List.mem_flatMap.mp hx
   exact toOps_ok d w (h w hw) x hx
 
-theorem playStep_ok (d : Data) (song : Song) (s : Drv) (hc : ChansOK s.chans) (hb : BankOK d) :
+theorem playStep_ok (d : Data) (song : Song) (s : Drv) (hc : ChansOK s.chans) :
     ChansOK (playStep d song s).1.chans ∧ ∀ x ∈ (playStep d song s).2.1, OpOK d x := by
-  obtain ⟨c1, o1⟩ := stepSeq_ok d song s hc hb
+  obtain ⟨c1, o1⟩ := stepSeq_ok d song s hc
   obtain ⟨c3, o3⟩ := stepLoop_ok (stepPcm (stepSeq d song s).1) (by rw [stepPcm_chans]; exact c1)
   have hout : (playStep d song s).2.1 =
       (stepSeq d song s).2.flatMap Wr.toOps ++ (stepLoop (stepPcm (stepSeq d song s).1)).2 := by
@@ -530,14 +541,14 @@ theorem playStep_ok (d : Data) (song : Song) (s : Drv) (hc : ChansOK s.chans) (h
     · cases h
     · simp at h; subst h; trivial
 
-theorem exportLoop_ok (d : Data) (song : Song) (hb : BankOK d) : ∀ (fuel : Nat) (s : Drv) (elapsed delta : Int) (acc : List Vgm.Op),
+theorem exportLoop_ok (d : Data) (song : Song) : ∀ (fuel : Nat) (s : Drv) (elapsed delta : Int) (acc : List Vgm.Op),
     ChansOK s.chans → (∀ x ∈ acc, OpOK d x) → ∀ x ∈ (exportLoop d song fuel s elapsed delta acc).2, OpOK d x
   | 0, s, elapsed, delta, acc, _, ha => by simpa [exportLoop] using ha
   | fuel + 1, s, elapsed, delta, acc, hc, ha => by
     unfold exportLoop
     split
     · exact ha
-    · obtain ⟨c1, o1⟩ := playStep_ok d song s hc hb
+    · obtain ⟨c1, o1⟩ := playStep_ok d song s hc
       cases hps : playStep d song s with
       | mk s' r =>
         obtain ⟨o, dl⟩ := r
@@ -554,7 +565,7 @@ theorem exportLoop_ok (d : Data) (song : Song) (hb : BankOK d) : ∀ (fuel : Nat
         · exact hnew
         · split
           · exact hnew
-          · exact exportLoop_ok d song hb fuel s' _ _ _ c1 hnew
+          · exact exportLoop_ok d song fuel s' _ _ _ c1 hnew
 
 /-- the delays the export loop hands to the writer sum to less than one hour and one update -/
 theorem exportLoop_delays (d : Data) (song : Song) : ∀ (fuel : Nat) (s : Drv) (elapsed delta : Int) (acc : List Vgm.Op),
@@ -623,9 +634,9 @@ theorem toX_toOp (d : Data) (o : Vgm.Op) (h : OpOK d o) : (toX o).toOp = o := by
 theorem map_toX (d : Data) (ops : List Vgm.Op) (h : ∀ o ∈ ops, OpOK d o) :
     (ops.map toX).map Vgm.XOp.toOp = ops ∧ (∀ x ∈ ops.map toX, x.valid) ∧
     ((ops.map toX).map Vgm.XOp.delayOf).sum = delaySum ops ∧
-    ∀ bank, used d ≤ bank → Vgm.xsPcm bank (ops.map toX) = true := by
+    (BankOK d → ∀ bank, used d ≤ bank → Vgm.xsPcm bank (ops.map toX) = true) := by
   induction ops with
-  | nil => exact ⟨rfl, (by intro x hx; cases hx), rfl, fun _ _ => rfl⟩
+  | nil => exact ⟨rfl, (by intro x hx; cases hx), rfl, fun _ _ _ => rfl⟩
   | cons o r ih =>
     have ho := h o (by simp)
     obtain ⟨i1, i2, i3, i4⟩ := ih (fun x hx => h x (by simp [hx]))
@@ -656,12 +667,20 @@ theorem map_toX (d : Data) (ops : List Vgm.Op) (h : ∀ o ∈ ops, OpOK d o) :
       | stop => simp [toX, delaySum, Vgm.XOp.delayOf]
       | poke a b => simp [toX, delaySum, Vgm.XOp.delayOf]
       | writeTag t => simp [toX, delaySum, Vgm.XOp.delayOf]
-    · intro bank hbk
+    · intro hb bank hbk
+      have i4 := i4 hb
       cases o with
       | write c p r dt => simp only [List.map_cons, toX]; split <;> exact i4 bank hbk
       | dacStart a b c d' =>
         simp only [List.map_cons, toX, Vgm.xsPcm, Bool.and_eq_true, decide_eq_true_eq]
-        exact ⟨Nat.le_trans ho hbk, i4 bank hbk⟩
+        refine ⟨?_, i4 bank hbk⟩
+        obtain ⟨s, ⟨ins, _, hs⟩, rfl, rfl, _⟩ := ho
+        have := hb.windows s (List.mem_of_getElem? hs)
+        have h1 : Wave.u32 (s.position + s.start) % 4294967296 ≤ s.position + s.start := by
+          unfold Wave.u32
+          exact Nat.le_trans (Nat.mod_le _ _) (Nat.mod_le _ _)
+        have h2 : s.size % 4294967296 ≤ s.size := Nat.mod_le _ _
+        omega
       | dacStop a => exact i4 bank hbk
       | setLoop => exact i4 bank hbk
       | delay n => exact i4 bank hbk
@@ -670,6 +689,52 @@ theorem map_toX (d : Data) (ops : List Vgm.Op) (h : ∀ o ∈ ops, OpOK d o) :
       | stop => exact absurd ho (by simp [OpOK])
       | poke a b => exact absurd ho (by simp [OpOK])
       | writeTag t => exact absurd ho (by simp [OpOK])
+
+/-- no data block among the translated operations; every stream start is the window of a PCM
+instrument's sample header -/
+theorem pcm_toX (d : Data) (ops : List Vgm.Op) (h : ∀ o ∈ ops, OpOK d o) :
+    Vgm.xBank (ops.map toX) = [] ∧
+    ∀ q ∈ Vgm.xStarts (ops.map toX), ∃ s, IsPcmSample d s ∧
+      q = (Wave.u32 (s.position + s.start) % 4294967296, s.size % 4294967296) := by
+  induction ops with
+  | nil => exact ⟨rfl, by intro q hq; cases hq⟩
+  | cons o r ih =>
+    have ho := h o (by simp)
+    obtain ⟨i1, i2⟩ := ih (fun x hx => h x (by simp [hx]))
+    cases o with
+    | write c p r' dt => simp only [List.map_cons, toX]; split <;> exact ⟨i1, i2⟩
+    | dacStart a b c d' =>
+      refine ⟨i1, ?_⟩
+      intro q hq
+      simp only [List.map_cons, toX, Vgm.xStarts, List.mem_cons] at hq
+      rcases hq with rfl | hq
+      · obtain ⟨s, hs, rfl, rfl, _⟩ := ho
+        exact ⟨s, hs, rfl⟩
+      · exact i2 q hq
+    | dacStop a => exact ⟨i1, i2⟩
+    | setLoop => exact ⟨i1, i2⟩
+    | delay n => exact ⟨i1, i2⟩
+    | dacSetup a b c d e => exact absurd ho (by simp [OpOK])
+    | datablock t p m f o => exact absurd ho (by simp [OpOK])
+    | stop => exact absurd ho (by simp [OpOK])
+    | poke a b => exact absurd ho (by simp [OpOK])
+    | writeTag t => exact absurd ho (by simp [OpOK])
+
+/-- reading a sample window out of the data block is reading it out of the rom -/
+theorem window_in_block (d : Data) (hb : BankOK d) (s : Wave.Sample) (hs : s ∈ d.bank.samples) :
+    ((pcmBlock d).drop (Wave.u32 (s.position + s.start) % 4294967296)).take (s.size % 4294967296) =
+      (d.bank.rom.drop (s.position + s.start)).take s.size := by
+  have hw := hb.windows s hs
+  have hsm := hb.small
+  have hu : used d ≤ d.bank.rom.length := by unfold used; omega
+  have e1 : Wave.u32 (s.position + s.start) % 4294967296 = s.position + s.start := by
+    unfold Wave.u32; omega
+  have e2 : s.size % 4294967296 = s.size := by omega
+  rw [e1, e2]
+  unfold pcmBlock
+  rw [List.drop_take, List.take_take]
+  congr 1
+  omega
 
 /-! ### the whole export -/
 
@@ -710,14 +775,6 @@ theorem mkChans_ok (d : Data) : ∀ (tracks : List (Nat × List Event)) (acc : L
         exact AllOK.append h2 o
       · exact h2
 
-/-- the data block `play_song` writes -/
-def pcmBlock (d : Data) : Bytes := d.bank.rom.take (used d)
-
-theorem pcmBlock_length (d : Data) : (pcmBlock d).length = used d := by
-  unfold pcmBlock used
-  rw [List.length_take]
-  omega
-
 theorem playSong_ok (d : Data) (song : Song) :
     ChansOK (playSong d song).1.chans ∧ (playSong d song).1.seqCounter = 0 ∧ (playSong d song).1.pcmCounter = 0 ∧
     ∃ w, AllOK d w ∧ (playSong d song).2 =
@@ -744,13 +801,16 @@ theorem exportOps_x (d : Data) (song : Song) (tags : Vgm.Tags) (ops : List Vgm.O
          XOp.dacSetup (tab md_dac_setup_args 0) (tab md_dac_setup_args 1) (tab md_dac_setup_args 2)
            (tab md_dac_setup_args 3) (tab md_dac_setup_args 4) :: rest) tags ∧
       (∀ x ∈ rest, x.valid) ∧ (rest.map XOp.delayOf).sum < 2147483648 ∧ xsPcm (used d) rest = true ∧
-      (∀ x ∈ rest, ∀ t p m o, x ≠ XOp.datablock t p m o) := by
+      (∀ x ∈ rest, ∀ t p m o, x ≠ XOp.datablock t p m o) ∧
+      xBank rest = [] ∧
+      (∀ q ∈ xStarts rest, ∃ s, IsPcmSample d s ∧
+        q = (Wave.u32 (s.position + s.start) % 4294967296, s.size % 4294967296)) := by
   unfold MdDriver.exportOps at h
   obtain ⟨c0, hs0, hp0, w, hw, ho0⟩ := playSong_ok d song
   generalize hps : playSong d song = ps at h c0 hs0 hp0 ho0
   obtain ⟨s0, o0⟩ := ps
   simp only at h c0 hs0 hp0 ho0
-  have hloopok := exportLoop_ok d song hb exportFuel s0 0 0 [] c0 (by intro x hx; cases hx)
+  have hloopok := exportLoop_ok d song exportFuel s0 0 0 [] c0 (by intro x hx; cases hx)
   have hloopd := exportLoop_delays d song exportFuel s0 0 0 []
     (by rw [hs0, hp0]; exact clockInv_init) (by omega) (by simp [delaySum]) (by rw [maxTime_eq]; omega)
   generalize hel : exportLoop d song exportFuel s0 0 0 [] = el at h hloopok hloopd
@@ -767,7 +827,8 @@ theorem exportOps_x (d : Data) (song : Song) (tags : Vgm.Tags) (ops : List Vgm.O
       · exact flatMap_toOps_ok d w hw x hx
       · exact hloopok x hx
     obtain ⟨m1, m2, m3, m4⟩ := map_toX d _ hbody
-    refine ⟨(w.flatMap Wr.toOps ++ o1).map toX, ?_, m2, ?_, m4 (used d) (Nat.le_refl _), ?_⟩
+    obtain ⟨n1, n2⟩ := pcm_toX d _ hbody
+    refine ⟨(w.flatMap Wr.toOps ++ o1).map toX, ?_, m2, ?_, m4 hb (used d) (Nat.le_refl _), ?_, n1, n2⟩
     · unfold Vgm.exportOps
       rw [ctorPokes_eq, ho0]
       simp only [List.map_cons, m1, XOp.toOp, List.append_assoc, List.cons_append, List.nil_append]
